@@ -934,6 +934,18 @@ func (fx *FuncExec) evalSpecCall(env *SpecEnv, x *ast.CallExpr) Val {
 			return bv(h)
 		}
 		return bv("false")
+	case "isfunc":
+		// isfunc(v, "name"): the function value v is (statically) the named function or closure
+		lit, ok := x.Args[1].(*ast.BasicLit)
+		if !ok {
+			fx.specFail(env, "isfunc(value, \"function name\")")
+		}
+		nm, _ := strconv.Unquote(lit.Value)
+		v := fx.evalSpec(env, x.Args[0])
+		if v.Fn != nil && shortName(fx.V.funcKey(v.Fn)) == nm {
+			return bv("true")
+		}
+		return bv("false")
 	case "called":
 		// called("callee"): a call to that callee (at-call naming) has been executed on this path
 		lit, ok := x.Args[0].(*ast.BasicLit)
